@@ -278,6 +278,14 @@ func (rw *rewriter) file(f *ast.File) {
 					used = true
 				}
 			}
+			if sel, ok := n.Fun.(*ast.SelectorExpr); ok && (sel.Sel.Name == "Pointer" || sel.Sel.Name == "UnsafeAddr") && len(n.Args) == 0 && !isTest {
+				// S8: an address turned into a number
+				if t := rw.info.TypeOf(sel.X); t != nil && t.String() == "reflect.Value" {
+					c.Replace(&ast.CallExpr{Fun: simrtSel("Value" + sel.Sel.Name), Args: []ast.Expr{sel.X}})
+					rw.cen.Rules["reflect."+sel.Sel.Name]++
+					used = true
+				}
+			}
 			if sel, ok := n.Fun.(*ast.SelectorExpr); ok && sel.Sel.Name == "MapRange" && len(n.Args) == 0 {
 				if t := rw.info.TypeOf(sel.X); t != nil && t.String() == "reflect.Value" {
 					c.Replace(&ast.CallExpr{Fun: simrtSel("MapRange"), Args: []ast.Expr{sel.X}})
